@@ -202,23 +202,29 @@ Fixpoint before_dot (s : string) : option string :=
   | String c r => if Ascii.eqb c (Ascii.Ascii false true true true false true false false) then Some EmptyString else option_map (String c) (before_dot r)
   end.
 
-(* bind parameters: positionals, then keywords, then defaults *)
-Fixpoint bind_params (ps : list (string * option const)) (args : list val) (kw : list (string * val)) : option env :=
+(* bind parameters: positionals, then keywords, then defaults; surplus positionals and
+   unknown keywords are a TypeError (None) unless the function has unused *args/**kwargs *)
+Fixpoint bind_params_aux (extra : bool) (ps : list (string * option const)) (args : list val) (kw : list (string * val))
+  : option (list (string * val)) :=
   match ps with
-  | [] => match args with [] => Some [] | _ => None end
+  | [] => match args with [] => Some [] | _ => if extra then Some [] else None end
   | (x, d) :: r =>
       match args with
-      | a :: args' => option_map (fun e => (x, a) :: e) (bind_params r args' kw)
+      | a :: args' => option_map (fun e => (x, a) :: e) (bind_params_aux extra r args' kw)
       | [] =>
           match aget x kw with
-          | Some v => option_map (fun e => (x, v) :: e) (bind_params r [] kw)
+          | Some v => option_map (fun e => (x, v) :: e) (bind_params_aux extra r [] kw)
           | None => match d with
-                    | Some c => option_map (fun e => (x, const_val c) :: e) (bind_params r [] kw)
+                    | Some c => option_map (fun e => (x, const_val c) :: e) (bind_params_aux extra r [] kw)
                     | None => None
                     end
           end
       end
   end.
+Definition bind_params (fd : fundef) (args : list val) (kw : list (string * val)) : option (list (string * val)) :=
+  if fextra fd || forallb (fun p => existsb (fun q => String.eqb (fst p) (fst q)) (fparams fd)) kw
+  then bind_params_aux (fextra fd) (fparams fd) args kw
+  else None.
 
 (* The interpreter is written with open recursion: every [*_step] function takes the
    record of interpreters of the next-smaller fuel.  [interp] ties the knot.  (This
@@ -230,9 +236,9 @@ Record recs := {
   r_evalkw : env -> (list (string * expr)) -> st -> kres;
   r_ocall : string -> list val -> (list (string * val)) -> st -> eres;
   r_run_beh : beh -> list event -> eres;
-  r_call_value : val -> list val -> (list (string * val)) -> st -> eres;
-  r_call_method : val -> string -> list val -> (list (string * val)) -> st -> eres;
-  r_call_fun : string -> fundef -> list val -> (list (string * val)) -> st -> eres;
+  r_call_value : option val -> val -> list val -> (list (string * val)) -> st -> eres;
+  r_call_method : option val -> val -> string -> list val -> (list (string * val)) -> st -> eres;
+  r_call_fun : option val -> string -> fundef -> list val -> (list (string * val)) -> st -> eres;
   r_assign : env -> target -> val -> st -> sres;
   r_assigns : env -> list target -> list val -> st -> sres;
   r_exec : env -> stmt -> st -> sres;
@@ -457,7 +463,7 @@ Definition eval_step (R : recs) (en : env) (e : expr) (s : st) : eres :=
                 match r_evals R en args s1 with
                 | LOk vargs s2 =>
                     match r_evalkw R en kw s2 with
-                    | KOk vkw s3 => r_call_method R vr m vargs vkw s3
+                    | KOk vkw s3 => r_call_method R (aget "__exc__" en) vr m vargs vkw s3
                     | KExc x s3 => EExc x s3
                     | KTimeout => ETimeout
                     | KStuck m' => EStuck m'
@@ -472,7 +478,7 @@ Definition eval_step (R : recs) (en : env) (e : expr) (s : st) : eres :=
                 match r_evals R en args s1 with
                 | LOk vargs s2 =>
                     match r_evalkw R en kw s2 with
-                    | KOk vkw s3 => r_call_value R vf vargs vkw s3
+                    | KOk vkw s3 => r_call_value R (aget "__exc__" en) vf vargs vkw s3
                     | KExc x s3 => EExc x s3
                     | KTimeout => ETimeout
                     | KStuck m' => EStuck m'
@@ -487,7 +493,13 @@ Definition eval_step (R : recs) (en : env) (e : expr) (s : st) : eres :=
         | Some vself, Some (VStr c) => EOk (VSuper vself c) s
         | _, _ => EStuck "super() outside a method"
         end
-    | EOpaque src => r_ocall R src [] [] s
+    | EOpaque src =>
+        if String.eqb src "sys.exc_info()" then
+          EOk (match aget "__exc__" en with
+               | Some x => VTup [VGlobal "type(exc)"; x; VGlobal "exc.__traceback__"]
+               | None => VTup [VNone; VNone; VNone]
+               end) s
+        else r_ocall R src [] [] s
     end.
 
 Definition evals_step (R : recs) (en : env) (es : list expr) (s : st) : elres :=
@@ -533,7 +545,7 @@ Definition run_beh_step (R : recs) (b : beh) (n : list event) : eres :=
     | BCall h g args kw k =>
         match aget g (pfuns P) with
         | Some fd =>
-            match r_call_fun R g fd args kw (h, n) with
+            match r_call_fun R None g fd args kw (h, n) with
             | EOk v (h1, n1) => r_run_beh R (k h1 (ORet v)) n1
             | EExc x (h1, n1) => r_run_beh R (k h1 (ORaise x)) n1
             | r => r
@@ -542,18 +554,18 @@ Definition run_beh_step (R : recs) (b : beh) (n : list event) : eres :=
         end
     end.
 
-Definition call_value_step (R : recs) (vf : val) (args : list val) (kw : list (string * val)) (s : st) : eres :=
+Definition call_value_step (R : recs) (cur : option val) (vf : val) (args : list val) (kw : list (string * val)) (s : st) : eres :=
     match vf with
     | VGlobal g =>
         match aget g (pfuns P) with
-        | Some fd => r_call_fun R g fd args kw s
+        | Some fd => r_call_fun R cur g fd args kw s
         | None => r_ocall R g args kw s
         end
     | VRef i =>
         match hget (fst s) i with
         | Some (OInst c _) =>
             match find_method P (mro_of P c) "__call__" with
-            | Some (c', fd) => r_call_fun R (c' ++ ".__call__") fd (vf :: args) kw s
+            | Some (c', fd) => r_call_fun R cur (c' ++ ".__call__") fd (vf :: args) kw s
             | None => r_ocall R (c ++ ".__call__") (vf :: args) kw s
             end
         | Some OOpaque => r_ocall R "<object>.__call__" (vf :: args) kw s
@@ -564,16 +576,16 @@ Definition call_value_step (R : recs) (vf : val) (args : list val) (kw : list (s
     | _ => EStuck "call of an unsupported value"
     end.
 
-Definition call_method_step (R : recs) (vr : val) (m : string) (args : list val) (kw : list (string * val)) (s : st) : eres :=
+Definition call_method_step (R : recs) (cur : option val) (vr : val) (m : string) (args : list val) (kw : list (string * val)) (s : st) : eres :=
     match vr with
     | VRef i =>
         match hget (fst s) i with
         | Some (OInst c attrs) =>
             match aget m attrs with
-            | Some vf => r_call_value R vf args kw s
+            | Some vf => r_call_value R cur vf args kw s
             | None =>
                 match find_method P (mro_of P c) m with
-                | Some (c', fd) => r_call_fun R (c' ++ "." ++ m) fd (vr :: args) kw s
+                | Some (c', fd) => r_call_fun R cur (c' ++ "." ++ m) fd (vr :: args) kw s
                 | None => r_ocall R (c ++ "." ++ m) (vr :: args) kw s
                 end
             end
@@ -590,25 +602,30 @@ Definition call_method_step (R : recs) (vr : val) (m : string) (args : list val)
             match hget (fst s) i with
             | Some (OInst c0 _) =>
                 match find_method P (drop_until c (mro_of P c0)) m with
-                | Some (c', fd) => r_call_fun R (c' ++ "." ++ m) fd (vself :: args) kw s
+                | Some (c', fd) => r_call_fun R cur (c' ++ "." ++ m) fd (vself :: args) kw s
                 | None => r_ocall R ("super." ++ m) (vself :: args) kw s
                 end
             | _ => EStuck "super() of a non-instance"
             end
         | _ => EStuck "super() of a non-instance"
         end
-    | VGlobal g => r_call_value R (VGlobal (g ++ "." ++ m)) args kw s
+    | VGlobal g => r_call_value R cur (VGlobal (g ++ "." ++ m)) args kw s
     | VNone => EExc (exn "AttributeError") s
     | _ => EStuck "method call on an unsupported value"
     end.
 
-Definition call_fun_step (R : recs) (name : string) (fd : fundef) (args : list val) (kw : list (string * val)) (s : st) : eres :=
-    match bind_params (fparams fd) args kw with
+Definition call_fun_step (R : recs) (cur : option val) (name : string) (fd : fundef) (args : list val) (kw : list (string * val)) (s : st) : eres :=
+    match bind_params fd args kw with
     | None => EExc (exn "TypeError") s
     | Some en0 =>
         let en1 := match before_dot name with
                    | Some c => ("__class__", VStr c) :: en0
                    | None => en0
+                   end in
+        (* the exception being handled is dynamic: a callee sees its caller's *)
+        let en1 := match cur with
+                   | Some x => ("__exc__", x) :: en1
+                   | None => en1
                    end in
         match r_exec_block R en1 (fbody fd) s with
         | SR CNorm _ s1 => EOk VNone s1
@@ -655,6 +672,13 @@ Definition assign_step (R : recs) (en : env) (t : target) (v : val) (s : st) : s
                 | Some (OInst c attrs) => SR CNorm en (hset (fst s1) i (OInst c (aset a v attrs)), snd s1)
                 | Some _ => SStuck "attribute assignment to a non-instance"
                 | None => SStuck "dangling reference"
+                end
+            | VGlobal _ =>
+                match r_ocall R "setattr" [vo; VStr a; v] [] s1 with
+                | EOk _ s2 => SR CNorm en s2
+                | EExc x s2 => SR (CExc x) en s2
+                | ETimeout => STimeout
+                | EStuck m => SStuck m
                 end
             | _ => SStuck "attribute assignment to a non-reference"
             end
@@ -799,9 +823,9 @@ Definition bottom : recs := {|
   r_evalkw := fun en kw s => KTimeout;
   r_ocall := fun g args kw s => ETimeout;
   r_run_beh := fun b n => ETimeout;
-  r_call_value := fun vf args kw s => ETimeout;
-  r_call_method := fun vr m args kw s => ETimeout;
-  r_call_fun := fun name fd args kw s => ETimeout;
+  r_call_value := fun cur vf args kw s => ETimeout;
+  r_call_method := fun cur vr m args kw s => ETimeout;
+  r_call_fun := fun cur name fd args kw s => ETimeout;
   r_assign := fun en t v s => STimeout;
   r_assigns := fun en ts vs s => STimeout;
   r_exec := fun en c s => STimeout;
